@@ -685,6 +685,15 @@ func main() {
 	}
 
 	cases := universe(r.Thorough())
+	if f := os.Getenv("C38_ONLY"); f != "" {
+		var cs []Case
+		for _, c := range cases {
+			if strings.Contains(","+f+",", ","+c.Seed+",") {
+				cs = append(cs, c)
+			}
+		}
+		cases = cs
+	}
 	r.Set("universe", len(cases))
 	workers := runtime.GOMAXPROCS(0)
 	if workers > 16 {
@@ -726,6 +735,9 @@ func main() {
 						continue
 					}
 					res := runCase(addr, c)
+					if os.Getenv("C38_DEBUG") != "" && c.Seed == "field_list" && c.Muts[0].K == "trunc" {
+						fmt.Fprintf(os.Stderr, "dbg %s -> %q bad=%q alive=%v\n", c, res.outcome, res.bad, w.child.Alive())
+					}
 					bad := res.bad != ""
 					if !bad {
 						if err := selectOne(h); err != nil {
@@ -748,7 +760,10 @@ func main() {
 		wg.Wait()
 	}
 	// batches, so that after a crash only a bounded number of cases has to be re-examined
-	const batchSize = 2000
+	batchSize := 2000
+	if v := os.Getenv("C38_BATCH"); v != "" {
+		fmt.Sscan(v, &batchSize)
+	}
 	for from := 0; from < len(cases) && atomic.LoadInt32(&capped) == 0; from += batchSize {
 		to := from + batchSize
 		if to > len(cases) {
@@ -761,6 +776,9 @@ func main() {
 		// sequential re-examination
 		sus := suspects
 		suspects = nil
+		if os.Getenv("C38_DEBUG") != "" {
+			fmt.Fprintf(os.Stderr, "batch %d..%d: %d suspects, child alive=%v\n", from, to, len(sus), w.child.Alive())
+		}
 		for _, c := range sus {
 			k, res, extra := runOne(c)
 			if k == "engine" {
@@ -786,6 +804,15 @@ func main() {
 	}
 	if atomic.LoadInt32(&capped) != 0 {
 		r.Capped(fmt.Sprintf("first %d of %d cases in enumeration order (all single mutations come before pairs)", done, len(cases)))
+	}
+	if os.Getenv("C38_POST") != "" {
+		for i := 0; i < 3; i++ {
+			k, res, extra := runOne(Case{Seed: "field_list", Muts: []Mut{{K: "trunc", P: 3}}})
+			fmt.Fprintf(os.Stderr, "post: verdict=%q outcome=%q alive=%v gen=%d %s\n", k, res.outcome, w.child.Alive(), w.gen, tail(extra, 300))
+		}
+	}
+	if os.Getenv("C38_DEBUG") != "" {
+		fmt.Fprintf(os.Stderr, "child gen=%d stderr:\n%s\n", w.gen, tail(w.child.Stderr(), 3000))
 	}
 	w.child.Close()
 	r.Set("evaluations", done)
